@@ -40,6 +40,8 @@ def _graph(sx, kind, V):
         return 5, (), [(0, 1, 2), (0, 2, 3), (0, 3, 4)], ()
     if kind == "fan4":   # closed fan: vertex 0 interior
         return 5, (), [(0, 1, 2), (0, 2, 3), (0, 3, 4), (0, 4, 1)], ()
+    if kind == "disk6":  # two adjacent interior vertices 0, 1 inside the border ring 2-3-4-5; border vertex 4 is not adjacent to 0
+        return 6, (), [(0, 2, 3), (0, 3, 1), (0, 1, 5), (0, 5, 2), (1, 3, 4), (1, 4, 5)], ()
     if kind == "tet1":
         return 4, (), (), [(0, 1, 2, 3)]
     if kind == "tet2":
@@ -51,6 +53,10 @@ def _setup(sx, kind, V, mode, attr_weights=False):
     n, edges, faces, cells = _graph(sx, kind, V)
     if mode == "length":
         xs = [sx.real("x%d" % i) for i in range(n)]
+        if kind == "disk6":
+            # six free abscissae give > 10^5 orderings: the start's own ring is pinned (far away, at different distances),
+            # the second interior vertex and the far border vertex stay symbolic
+            xs = [0, xs[1], 10, -12, xs[4], 14]
         verts = [meshgen.vec3(x, 0, 0) for x in xs]
     else:
         xs = None
@@ -269,4 +275,6 @@ def obligations(tier):
     for k in (["tri2"] if q else ["tri2", "tri3", "fan4"]):
         obs.append(Ob("border-" + k, vertex_set(k, 0, border=True), covers=COVERS, split=4,
                       note="shortest_path_to_border on " + k))
+    obs.append(Ob("border-disk6-length", vertex_set("disk6", 0, border=True, modes=(2,), exports=(0,)), covers=COVERS, split=6,
+                  note="shortest_path_to_border in length mode on a disk whose interior start is not adjacent to every border vertex (two symbolic abscissae, four pinned)"))
     return obs
